@@ -262,7 +262,7 @@ pub fn run(ctx: &mut Ctx) {
     for (n, ok) in r2::selftest() {
         ctx.selftest(&n, ok);
     }
-    ctx.require(&["edge_key", "random_key", "pub_coordinate_leading_zero_byte", "y_odd", "y_even", "pub_sec1", "pub_hex", "pub_spki", "priv_bytes", "priv_hex", "priv_pkcs8", "openssl_pkcs8", "openssl_spki", "openssl_sm2cipher", "asn1_encrypt", "asn1_decrypt", "asn1_zero_coord", "asn1_top_bit_set", "asn1_top_bit_clear", "reject_offcurve", "reject_coordinate_ge_p", "reject_wrong_length", "reject_wrong_pc_byte", "reject_priv_wrong_length"]);
+    ctx.require(&["edge_key", "random_key", "pub_coordinate_leading_zero_byte", "y_odd", "y_even", "pub_sec1", "pub_hex", "pub_spki", "priv_bytes", "priv_hex", "priv_pkcs8", "openssl_pkcs8", "openssl_spki", "openssl_sm2cipher", "asn1_encrypt", "asn1_decrypt", "asn1_zero_coord", "asn1_top_bit_set", "asn1_top_bit_clear", "reject_offcurve", "reject_coordinate_ge_p", "reject_coordinate_eq_p", "reject_wrong_length", "reject_wrong_pc_byte", "reject_priv_wrong_length"]);
     let c = r2::curve();
     // ---- key round trips
     let n = ctx.n(150, 6000);
@@ -456,6 +456,16 @@ pub fn run(ctx: &mut Ctx) {
         let mut v = vec![4u8];
         v.extend_from_slice(&[0xff; 64]);
         must_reject_pub(ctx, &v, "reject_coordinate_ge_p");
+        // exact boundary: x' = p aliases x = 0, and (0, sqrt(b)) is on the curve
+        if let Some(y0) = r2::sqrt_p(&c.b) {
+            let mut v = vec![4u8];
+            v.extend_from_slice(&r2::b32(&c.p));
+            v.extend_from_slice(&r2::b32(&y0));
+            must_reject_pub(ctx, &v, "reject_coordinate_eq_p");
+            let mut v2 = vec![if y0.bit(0) { 3u8 } else { 2 }];
+            v2.extend_from_slice(&r2::b32(&c.p));
+            must_reject_pub(ctx, &v2, "reject_coordinate_eq_p");
+        }
         // wrong lengths
         for len in [0usize, 1, 32, 33, 34, 63, 64, 66, 96, 129] {
             let mut v = good.clone();
